@@ -526,7 +526,7 @@ def run_raw(case, ctx):
 
 SUBCHECKS = [
     Sub("valid", valid_case, run_valid, quick=900, thorough=6000, shards_quick=3,
-        required={"src:str": 10, "src:bytes": 10, "src:path": 5, "feat:exponent": 20,
+        required={"src:str": 10, "src:bytes": 10, "src:path": 5, "feat:exponent": 20, "feat:long-spelling": 30,
                   "feat:crlf": 5, "feat:unrequested-extra": 5, "requested-extras": 10,
                   "enc:utf-16": 2, "enc:detect": 2, "reset": 10, "family:raw": 10, "reset-with-arbitrary-ids": 8}),
     Sub("malformed", malformed_case, run_malformed, quick=900, thorough=6000, shards_quick=3,
